@@ -445,6 +445,16 @@ where
             std::hint::black_box(&k);
         }
         let mut bad = 0u64;
+        // the very next object after exactly `n` fillers (the caller chooses n around 2^32 - 1, so that this object is
+        // the 2^32-th after key 0, give or take a few): its public key must be its own, not key 0's
+        {
+            let (sk, pk) = &keys[1];
+            let k = M::PrivateKey::from_bytes(sk).unwrap();
+            made += 1;
+            if M::sk_to_pk(&k).to_bytes().as_slice() != pk.as_slice() {
+                bad += 1;
+            }
+        }
         for (sk, pk) in keys.iter().rev() {
             let k = M::PrivateKey::from_bytes(sk).unwrap();
             made += 1;
